@@ -686,6 +686,12 @@ func (zp *ZoneParser) Next() (RR, bool) {
 				return zp.setParseError(err.err, err.lex)
 			}
 
+			// A syntax error the RDATA parser read past: the lexer hands it out
+			// as a token and stops there, so it must not go unreported.
+			if zp.c.l.err {
+				return zp.setParseError(zp.c.l.token, zp.c.l)
+			}
+
 			if parseAsRFC3597 {
 				err := parseAsRR.(*RFC3597).fromRFC3597(rr)
 				if err != nil {
